@@ -24,6 +24,16 @@ pub mod anyv {
             _ => None,
         }
     }
+    pub fn bb() -> chess_bitboard::BitBoard {
+        chess_bitboard::BitBoard::from_u64(kani::any())
+    }
+    pub fn color() -> chess_bitboard::Color {
+        if kani::any() {
+            chess_bitboard::Color::White
+        } else {
+            chess_bitboard::Color::Black
+        }
+    }
     pub fn mv() -> ChessMove {
         ChessMove { source: pos(), dest: pos(), piece: promo() }
     }
